@@ -1,9 +1,31 @@
 import HecsModel.Model.Prepared
+import HecsModel.Lemmas.Prepared
 /-
   C17 — Prepared queries and archetype generations never go stale.
+
+  The validity argument of the `PreparedQuery` cache:
+    1. archetypes are never removed or reordered and an archetype's type list never changes
+       (`archs_append_only`, for every operation, unconditionally);
+    2. hence the archetype count identifies the list of archetype type lists along a history
+       (`generation_injective` — the contract of `World::archetypes_generation`);
+    3. a fresh preparation yields exactly the plain query (`prepareFor_iter/len/viewGet`);
+    4. the memo `(world id, archetype count)` therefore names a state in which the cached list is
+       what a fresh preparation would give (`ValidFor`), and this is preserved by every operation
+       on the same world and by uses of the prepared query on other worlds;
+    5. so every use of a prepared query, in any interleaving of operations on two worlds and uses
+       on either, returns the plain query of the world it is used on (`uses_are_fresh`).
+
+  NOTE on `valid_step`: `ValidFor p q wid w → ValidFor p q wid (step w op).1` is *false* without a
+  side condition (`valid_step_needs_notFuture` below is a counterexample): a memo whose count lies
+  in the *future* of `w` says nothing now and is matched after the world grows.  The side condition
+  `NotFuture p wid w` ("a memo naming this world has a count ≤ the current one") is what the code
+  relies on: memos are only ever written by `prepareFor` with the current count, and counts only
+  grow.  `ValidFor ∧ NotFuture` is the inductive invariant of the history.
+  Likewise `valid_refresh` needs `ValidFor p q wid w` (a matching memo *keeps* the cache;
+  counterexample `valid_refresh_needs_valid`); it is unconditional only when the memo is stale.
 -/
 namespace Hecs.Props.C17
-open Hecs
+open Hecs Hecs.PreparedLemmas Hecs.Prepared
 
 /-- after the memo test the memo names the current world and archetype count -/
 theorem refresh_memo (p : Prepared) (wid : Nat) (w : World) (q : Q) :
@@ -26,5 +48,372 @@ theorem new_matches_nothing (wid : Nat) (w : World) (q : Q) (h : wid ≠ 0) :
   have := congrArg Prod.fst e
   simp at this
   exact h this.symm
+
+/-! ### 1. archetypes are append-only, type lists immutable -/
+
+/-- the run of a list of operations from `w` -/
+abbrev runFrom (w : World) (ops : List Op) : World := ops.foldl (fun w op => (step w op).1) w
+
+/-- every operation keeps every archetype at its index with its type list, and never shrinks the
+archetype array — for every `Op`, with no invariant hypothesis -/
+theorem archs_append_only (w : World) (op : Op) :
+    (∀ (a : Nat) (ar : Arch), w.archs[a]? = some ar →
+        ∃ ar' : Arch, (step w op).1.archs[a]? = some ar' ∧ ar'.types = ar.types) ∧
+    (step w op).1.archs.size ≥ w.archs.size :=
+  ⟨(ext_step w op).2, (ext_step w op).1⟩
+
+theorem archs_append_only_run (w : World) (ops : List Op) :
+    (∀ (a : Nat) (ar : Arch), w.archs[a]? = some ar →
+        ∃ ar' : Arch, (ops.foldl (fun w op => (step w op).1) w).archs[a]? = some ar' ∧ ar'.types = ar.types) ∧
+    (ops.foldl (fun w op => (step w op).1) w).archs.size ≥ w.archs.size :=
+  ⟨(ext_run ops w).2, (ext_run ops w).1⟩
+
+/-- in terms of `typesOf`: the type list at an existing index never changes -/
+theorem typesOf_stable_run (w : World) (ops : List Op) (a : Nat) (ha : a < w.archs.size) :
+    (runFrom w ops).typesOf a = w.typesOf a := by
+  have hget : w.archs[a]? = some w.archs[a] := by simp [ha]
+  obtain ⟨ar', h', ht⟩ := (ext_run ops w).2 a _ hget
+  rw [typesOf_get h', typesOf_get hget, ht]
+
+/-! ### 2. the archetype count identifies the archetype type lists -/
+
+/-- `World::archetypes_generation` -/
+abbrev generation (w : World) : Nat := w.archs.size
+
+/-- along a run, equal archetype counts mean equal lists of archetype type lists -/
+theorem generation_injective (w : World) (ops : List Op)
+    (h : (ops.foldl (fun w op => (step w op).1) w).archs.size = w.archs.size) :
+    (ops.foldl (fun w op => (step w op).1) w).archs.toList.map (·.types) = w.archs.toList.map (·.types) :=
+  (ext_run ops w).types_eq h
+
+/-- contrapositive: a different set of archetypes has a different generation -/
+theorem generation_changes (w : World) (ops : List Op)
+    (h : (runFrom w ops).archs.toList.map (·.types) ≠ w.archs.toList.map (·.types)) :
+    generation (runFrom w ops) ≠ generation w :=
+  fun hs => h (generation_injective w ops hs)
+
+/-- … and in that case it is strictly larger: generations never come back -/
+theorem generation_increases (w : World) (ops : List Op)
+    (h : (runFrom w ops).archs.toList.map (·.types) ≠ w.archs.toList.map (·.types)) :
+    generation w < generation (runFrom w ops) := by
+  have h1 : w.archs.size ≤ (runFrom w ops).archs.size := (ext_run ops w).1
+  have h2 : (runFrom w ops).archs.size ≠ w.archs.size := generation_changes w ops h
+  show w.archs.size < (runFrom w ops).archs.size
+  omega
+
+/-- three points of one history `w →ops₁ w₁ →ops₂ w₂`: the same generation at `w₁` and `w₂` means the
+same archetypes (the form the judge checks: a generation value seen with one set of archetypes never
+comes back with another) -/
+theorem generation_injective_between (w : World) (ops₁ ops₂ : List Op)
+    (h : generation (runFrom w (ops₁ ++ ops₂)) = generation (runFrom w ops₁)) :
+    (runFrom w (ops₁ ++ ops₂)).archs.toList.map (·.types) = (runFrom w ops₁).archs.toList.map (·.types) := by
+  simp only [runFrom, List.foldl_append] at h ⊢
+  exact generation_injective _ ops₂ h
+
+/-! ### 3. a fresh preparation is the plain query -/
+
+theorem prepareFor_iter (wid : Nat) (w : World) (q : Q) :
+    (Prepared.prepareFor wid w q).iter w q = w.queryIter q := fresh_iter wid w q
+
+theorem prepareFor_len (wid : Nat) (w : World) (q : Q) :
+    (Prepared.prepareFor wid w q).len w = w.preparedLen q := fresh_len wid w q
+
+theorem prepareFor_viewGet (wid : Nat) (w : World) (q : Q) (e : Entity) :
+    (Prepared.prepareFor wid w q).viewGet w q e = w.viewGet q e := fresh_viewGet wid w q e
+
+/-! ### 4. validity of the cache -/
+
+theorem valid_iff_validFor (p : Prepared) (q : Q) (worlds : Nat → Option World) :
+    p.Valid q worlds ↔ ∀ wid w, worlds wid = some w → p.ValidFor q wid w := Iff.rfl
+
+theorem valid_new (q : Q) (wid : Nat) (w : World) (h : wid ≠ 0) : ValidFor {} q wid w := by
+  intro e
+  have := congrArg Prod.fst e
+  simp at this
+  exact absurd this.symm h
+
+theorem notFuture_new (wid : Nat) (w : World) (h : wid ≠ 0) : NotFuture {} wid w := by
+  intro e
+  simp at e
+  exact absurd e.symm h
+
+/-- the memo test keeps validity for the world it is used on (it either keeps a valid cache or
+rebuilds it).  NB: the hypothesis is needed — see `valid_refresh_iff` and `valid_refresh_needs_valid`:
+a cache whose memo matches is *kept*, so it must already be valid. -/
+theorem valid_refresh (p : Prepared) (q : Q) (wid : Nat) (w : World) (hv : ValidFor p q wid w) :
+    ValidFor (p.refresh wid w q) q wid w := by
+  unfold Prepared.refresh
+  split
+  · exact hv
+  · intro _; rfl
+
+/-- unconditionally when the memo does not match (the state is rebuilt) -/
+theorem valid_refresh_of_stale (p : Prepared) (q : Q) (wid : Nat) (w : World)
+    (h : p.memo ≠ (wid, w.archs.size)) : ValidFor (p.refresh wid w q) q wid w := by
+  rw [refresh_rebuilds p wid w q h]; intro _; rfl
+
+theorem valid_refresh_iff (p : Prepared) (q : Q) (wid : Nat) (w : World) :
+    ValidFor (p.refresh wid w q) q wid w ↔ ValidFor p q wid w := by
+  refine ⟨fun h hm => ?_, valid_refresh p q wid w⟩
+  have : p.refresh wid w q = p := by simp [Prepared.refresh, hm]
+  rw [this] at h
+  exact h hm
+
+theorem notFuture_refresh (p : Prepared) (q : Q) (wid : Nat) (w : World) :
+    NotFuture (p.refresh wid w q) wid w := by
+  intro _
+  rw [refresh_memo]
+  exact Nat.le_refl _
+
+/-- a fresh preparation is valid and not from the future -/
+theorem valid_prepareFor (q : Q) (wid : Nat) (w : World) : ValidFor (Prepared.prepareFor wid w q) q wid w :=
+  fun _ => rfl
+
+theorem notFuture_step (p : Prepared) (wid : Nat) (w : World) (op : Op) (hb : NotFuture p wid w) :
+    NotFuture p wid (step w op).1 :=
+  fun h => Nat.le_trans (hb h) (ext_step w op).1
+
+theorem notFuture_run (p : Prepared) (wid : Nat) (w : World) (ops : List Op) (hb : NotFuture p wid w) :
+    NotFuture p wid (runFrom w ops) :=
+  fun h => Nat.le_trans (hb h) (ext_run ops w).1
+
+/-- validity is preserved along any run of the world (uses 1/2: if the memo still matches after the
+run then — the memo not being from the future — the archetype count is unchanged, hence all type
+lists are unchanged, hence `prepares` filters the same indices) -/
+theorem valid_run (p : Prepared) (q : Q) (wid : Nat) (w : World) (ops : List Op)
+    (hv : ValidFor p q wid w) (hb : NotFuture p wid w) : ValidFor p q wid (runFrom w ops) := by
+  intro hm
+  have hext := ext_run ops w
+  have h1 : p.memo.1 = wid := by rw [hm]
+  have h2 : p.memo.2 = (runFrom w ops).archs.size := by rw [hm]
+  have hle := hb h1
+  have hsz : (runFrom w ops).archs.size = w.archs.size := by
+    have h3 : w.archs.size ≤ (runFrom w ops).archs.size := hext.1
+    omega
+  have hm' : p.memo = (wid, w.archs.size) := by rw [hm, hsz]
+  rw [hv hm']
+  exact (prepareFor_idxs_congr wid w (runFrom w ops) q (generation_injective w ops hsz)).symm
+
+theorem valid_step (p : Prepared) (q : Q) (wid : Nat) (w : World) (op : Op)
+    (hv : ValidFor p q wid w) (hb : NotFuture p wid w) : ValidFor p q wid (step w op).1 :=
+  valid_run p q wid w [op] hv hb
+
+/-- using the query on another world keeps it valid for `(wid, w)`: either it is unchanged, or its
+memo now names `wid2` -/
+theorem valid_other_world (p : Prepared) (q : Q) (wid : Nat) (w : World) (wid2 : Nat) (w2 : World)
+    (hv : ValidFor p q wid w) (hne : wid2 ≠ wid) : ValidFor (p.refresh wid2 w2 q) q wid w := by
+  unfold Prepared.refresh
+  split
+  · exact hv
+  · intro hm
+    have := congrArg Prod.fst hm
+    exact absurd this hne
+
+theorem notFuture_other_world (p : Prepared) (q : Q) (wid : Nat) (w : World) (wid2 : Nat) (w2 : World)
+    (hb : NotFuture p wid w) (hne : wid2 ≠ wid) : NotFuture (p.refresh wid2 w2 q) wid w := by
+  unfold Prepared.refresh
+  split
+  · exact hb
+  · intro hm
+    exact absurd hm hne
+
+/-! ### 5. a valid prepared query answers like a fresh query -/
+
+theorem prepared_eq_fresh (p : Prepared) (q : Q) (wid : Nat) (w : World) (hv : ValidFor p q wid w) :
+    (p.refresh wid w q).iter w q = w.queryIter q ∧
+    (p.refresh wid w q).len w = w.preparedLen q ∧
+    ∀ e, (p.refresh wid w q).viewGet w q e = w.viewGet q e := by
+  have hi : (p.refresh wid w q).idxs = (Prepared.prepareFor wid w q).idxs :=
+    valid_refresh p q wid w hv (refresh_memo p wid w q)
+  refine ⟨?_, ?_, fun e => ?_⟩
+  · rw [← prepareFor_iter wid w q]; unfold Prepared.iter; rw [hi]
+  · rw [← prepareFor_len wid w q]; unfold Prepared.len; rw [hi]
+  · rw [← prepareFor_viewGet wid w q e]; unfold Prepared.viewGet; rw [hi]
+
+/-! ### histories over two worlds -/
+
+inductive Ev
+  | step1 (op : Op)
+  | step2 (op : Op)
+  | use1
+  | use2
+  deriving Repr, Inhabited
+
+/-- two worlds and one prepared query -/
+structure St where
+  w1 : World
+  w2 : World
+  p : Prepared
+  deriving Repr, Inhabited
+
+/-- one event; a use of the prepared query on world `i` runs the memo test against it -/
+def Ev.apply (q : Q) (wid1 wid2 : Nat) (s : St) : Ev → St
+  | .step1 op => { s with w1 := (step s.w1 op).1 }
+  | .step2 op => { s with w2 := (step s.w2 op).1 }
+  | .use1 => { s with p := s.p.refresh wid1 s.w1 q }
+  | .use2 => { s with p := s.p.refresh wid2 s.w2 q }
+
+def history (q : Q) (wid1 wid2 : Nat) (s : St) (evs : List Ev) : St :=
+  evs.foldl (Ev.apply q wid1 wid2) s
+
+/-- the invariant of a history -/
+def HInv (q : Q) (wid1 wid2 : Nat) (s : St) : Prop :=
+  (ValidFor s.p q wid1 s.w1 ∧ NotFuture s.p wid1 s.w1) ∧
+  (ValidFor s.p q wid2 s.w2 ∧ NotFuture s.p wid2 s.w2)
+
+theorem hinv_init (q : Q) (wid1 wid2 : Nat) (w1 w2 : World) (h1 : wid1 ≠ 0) (h2 : wid2 ≠ 0) :
+    HInv q wid1 wid2 ⟨w1, w2, {}⟩ :=
+  ⟨⟨valid_new q wid1 w1 h1, notFuture_new wid1 w1 h1⟩, ⟨valid_new q wid2 w2 h2, notFuture_new wid2 w2 h2⟩⟩
+
+/-- the invariant is preserved by every event -/
+theorem hinv_event (q : Q) (wid1 wid2 : Nat) (hne : wid1 ≠ wid2) (s : St) (ev : Ev)
+    (h : HInv q wid1 wid2 s) : HInv q wid1 wid2 (ev.apply q wid1 wid2 s) := by
+  obtain ⟨⟨v1, b1⟩, ⟨v2, b2⟩⟩ := h
+  cases ev with
+  | step1 op => exact ⟨⟨valid_step _ _ _ _ op v1 b1, notFuture_step _ _ _ op b1⟩, ⟨v2, b2⟩⟩
+  | step2 op => exact ⟨⟨v1, b1⟩, ⟨valid_step _ _ _ _ op v2 b2, notFuture_step _ _ _ op b2⟩⟩
+  | use1 =>
+    exact ⟨⟨valid_refresh _ _ _ _ v1, notFuture_refresh _ _ _ _⟩,
+           ⟨valid_other_world _ _ _ _ _ _ v2 hne, notFuture_other_world _ _ _ _ _ _ b2 hne⟩⟩
+  | use2 =>
+    exact ⟨⟨valid_other_world _ _ _ _ _ _ v1 hne.symm, notFuture_other_world _ _ _ _ _ _ b1 hne.symm⟩,
+           ⟨valid_refresh _ _ _ _ v2, notFuture_refresh _ _ _ _⟩⟩
+
+theorem hinv_history (q : Q) (wid1 wid2 : Nat) (hne : wid1 ≠ wid2) (evs : List Ev) (s : St)
+    (h : HInv q wid1 wid2 s) : HInv q wid1 wid2 (history q wid1 wid2 s evs) := by
+  induction evs generalizing s with
+  | nil => exact h
+  | cons ev evs ih => exact ih _ (hinv_event q wid1 wid2 hne s ev h)
+
+/-- **every use is fresh**: after any interleaving of operations on the two worlds and uses of the
+prepared query on either, starting from a never-used prepared query and distinct non-zero world ids,
+a use on either world returns exactly the plain query of that world (iteration, length, view). -/
+theorem uses_are_fresh (q : Q) (wid1 wid2 : Nat) (h1 : wid1 ≠ 0) (h2 : wid2 ≠ 0) (hne : wid1 ≠ wid2)
+    (w1 w2 : World) (evs : List Ev) :
+    let s := history q wid1 wid2 ⟨w1, w2, {}⟩ evs
+    ((s.p.refresh wid1 s.w1 q).iter s.w1 q = s.w1.queryIter q ∧
+     (s.p.refresh wid1 s.w1 q).len s.w1 = s.w1.preparedLen q ∧
+     ∀ e, (s.p.refresh wid1 s.w1 q).viewGet s.w1 q e = s.w1.viewGet q e) ∧
+    ((s.p.refresh wid2 s.w2 q).iter s.w2 q = s.w2.queryIter q ∧
+     (s.p.refresh wid2 s.w2 q).len s.w2 = s.w2.preparedLen q ∧
+     ∀ e, (s.p.refresh wid2 s.w2 q).viewGet s.w2 q e = s.w2.viewGet q e) := by
+  intro s
+  have h := hinv_history q wid1 wid2 hne evs _ (hinv_init q wid1 wid2 w1 w2 h1 h2)
+  exact ⟨prepared_eq_fresh _ q wid1 _ h.1.1, prepared_eq_fresh _ q wid2 _ h.2.1⟩
+
+/-- what the uses in a history return: `(iter, len)` of the prepared query after its memo test -/
+def observed (q : Q) (wid1 wid2 : Nat) : St → List Ev → List (List (Entity × Item) × Nat)
+  | _, [] => []
+  | s, ev :: evs =>
+    let s' := ev.apply q wid1 wid2 s
+    match ev with
+    | .use1 => (s'.p.iter s'.w1 q, s'.p.len s'.w1) :: observed q wid1 wid2 s' evs
+    | .use2 => (s'.p.iter s'.w2 q, s'.p.len s'.w2) :: observed q wid1 wid2 s' evs
+    | _ => observed q wid1 wid2 s' evs
+
+/-- what plain queries would return at the same points -/
+def expected (q : Q) (wid1 wid2 : Nat) : St → List Ev → List (List (Entity × Item) × Nat)
+  | _, [] => []
+  | s, ev :: evs =>
+    let s' := ev.apply q wid1 wid2 s
+    match ev with
+    | .use1 => (s'.w1.queryIter q, s'.w1.preparedLen q) :: expected q wid1 wid2 s' evs
+    | .use2 => (s'.w2.queryIter q, s'.w2.preparedLen q) :: expected q wid1 wid2 s' evs
+    | _ => expected q wid1 wid2 s' evs
+
+theorem observed_eq_expected (q : Q) (wid1 wid2 : Nat) (hne : wid1 ≠ wid2) (evs : List Ev) (s : St)
+    (h : HInv q wid1 wid2 s) : observed q wid1 wid2 s evs = expected q wid1 wid2 s evs := by
+  induction evs generalizing s with
+  | nil => rfl
+  | cons ev evs ih =>
+    have ih' := ih _ (hinv_event q wid1 wid2 hne s ev h)
+    cases ev with
+    | step1 op => simpa only [observed, expected] using ih'
+    | step2 op => simpa only [observed, expected] using ih'
+    | use1 =>
+      have hf := prepared_eq_fresh s.p q wid1 s.w1 h.1.1
+      simp only [observed, expected, ih']
+      simp only [Ev.apply, hf.1, hf.2.1]
+    | use2 =>
+      have hf := prepared_eq_fresh s.p q wid2 s.w2 h.2.1
+      simp only [observed, expected, ih']
+      simp only [Ev.apply, hf.1, hf.2.1]
+
+/-- trace form of `uses_are_fresh`: the sequence of results of all uses in a history is the sequence
+of results of plain queries at the same points -/
+theorem uses_are_fresh_trace (q : Q) (wid1 wid2 : Nat) (h1 : wid1 ≠ 0) (h2 : wid2 ≠ 0) (hne : wid1 ≠ wid2)
+    (w1 w2 : World) (evs : List Ev) :
+    observed q wid1 wid2 ⟨w1, w2, {}⟩ evs = expected q wid1 wid2 ⟨w1, w2, {}⟩ evs :=
+  observed_eq_expected q wid1 wid2 hne evs _ (hinv_init q wid1 wid2 w1 w2 h1 h2)
+
+/-! ### 6. non-vacuity and counterexamples -/
+
+namespace Example
+
+/-- four archetypes: `[]`, `[1]`, `[2]`, `[1,2]`; three entities -/
+def wA : World := runFrom World.new [.spawn [(1, 10)], .spawn [(2, 20)], .spawn [(1, 11), (2, 21)]]
+def qA : Q := .pair (.read 1) .unit
+/-- first use of a new prepared query on world 2 -/
+def pA : Prepared := ({} : Prepared).refresh 2 wA qA
+/-- same archetypes, one more row -/
+def wB : World := (step wA (.spawn [(1, 12)])).1
+/-- one more archetype (`[3]`) -/
+def wC : World := (step wB (.spawn [(3, 30)])).1
+/-- another world (id 3) with other archetypes -/
+def wO : World := runFrom World.new [.spawn [(1, 70), (3, 71)]]
+
+example : wA.archs.toList.map (·.types) = [[], [1], [2], [1, 2]] := by decide +kernel
+example : pA = { memo := (2, 4), idxs := [1, 3] } := by decide +kernel
+-- the memo matches and the cache is used (no rebuild), on the same world …
+example : pA.memo = (2, wA.archs.size) ∧ pA.refresh 2 wA qA = pA := by decide +kernel
+example : pA.iter wA qA = [(⟨0, 1⟩, .pair (.val 1 10) .unit), (⟨2, 1⟩, .pair (.val 1 11) .unit)] := by
+  decide +kernel
+-- … and after an operation that keeps the archetype count: the *old* cache answers the *new* world
+example : generation wB = generation wA ∧ pA.memo = (2, wB.archs.size) ∧ pA.refresh 2 wB qA = pA := by
+  decide +kernel
+example : pA.iter wB qA = wB.queryIter qA ∧ pA.len wB = 3 ∧ wB.preparedLen qA = 3 := by decide +kernel
+example : pA.iter wB qA =
+    [(⟨0, 1⟩, .pair (.val 1 10) .unit), (⟨3, 1⟩, .pair (.val 1 12) .unit), (⟨2, 1⟩, .pair (.val 1 11) .unit)] := by
+  decide +kernel
+example : pA.viewGet wB qA ⟨3, 1⟩ = some (.pair (.val 1 12) .unit) ∧ wB.viewGet qA ⟨3, 1⟩ = pA.viewGet wB qA ⟨3, 1⟩ := by
+  decide +kernel
+-- the hypotheses of `valid_step` / `prepared_eq_fresh` hold with a matching memo (not vacuously)
+example : ValidFor pA qA 2 wA ∧ NotFuture pA 2 wA ∧ pA.memo = (2, wA.archs.size) := by decide +kernel
+-- a new archetype changes the generation and the cache is rebuilt
+example : generation wC = 5 ∧ generation wC ≠ generation wB ∧
+    pA.refresh 2 wC qA = Prepared.prepareFor 2 wC qA ∧ (pA.refresh 2 wC qA).idxs = [1, 3] := by
+  decide +kernel
+-- used on another world the cache is rebuilt for it, and rebuilt again when coming back
+example : (pA.refresh 3 wO qA) = { memo := (3, 2), idxs := [1] } ∧
+    ((pA.refresh 3 wO qA).refresh 2 wB qA) = pA := by decide +kernel
+-- a whole history: uses interleaved with operations on both worlds
+example :
+    observed qA 2 3 ⟨wA, wO, {}⟩ [.use1, .step1 (.spawn [(1, 12)]), .use1, .use2, .step2 (.despawn ⟨0, 1⟩),
+      .step1 (.spawn [(3, 30)]), .use1, .use2]
+    = [([(⟨0, 1⟩, .pair (.val 1 10) .unit), (⟨2, 1⟩, .pair (.val 1 11) .unit)], 2),
+       ([(⟨0, 1⟩, .pair (.val 1 10) .unit), (⟨3, 1⟩, .pair (.val 1 12) .unit), (⟨2, 1⟩, .pair (.val 1 11) .unit)], 3),
+       ([(⟨0, 1⟩, .pair (.val 1 70) .unit)], 1),
+       ([(⟨0, 1⟩, .pair (.val 1 10) .unit), (⟨3, 1⟩, .pair (.val 1 12) .unit), (⟨2, 1⟩, .pair (.val 1 11) .unit)], 3),
+       ([], 0)] := by decide +kernel
+
+/-- `valid_step` needs `NotFuture`: a memo from the "future" of the world (count 2 while the world has
+1 archetype) is vacuously valid now and wrongly matched once the world has grown. -/
+theorem valid_step_needs_notFuture :
+    ¬ (∀ (p : Prepared) (q : Q) (wid : Nat) (w : World) (op : Op),
+        ValidFor p q wid w → ValidFor p q wid (step w op).1) := by
+  intro h
+  have := h { memo := (2, 2), idxs := [7] } .unit 2 World.new (.spawn [(1, 10)]) (by decide +kernel)
+  revert this
+  decide +kernel
+
+/-- `valid_refresh` needs the validity of `p`: a matching memo keeps the cache as it is. -/
+theorem valid_refresh_needs_valid :
+    ¬ (∀ (p : Prepared) (q : Q) (wid : Nat) (w : World), ValidFor (p.refresh wid w q) q wid w) := by
+  intro h
+  have := h { memo := (2, 1), idxs := [7] } .unit 2 World.new
+  revert this
+  decide +kernel
+
+end Example
 
 end Hecs.Props.C17
